@@ -20,14 +20,14 @@ theorem absEnv_subshellOf (s : St) (out : Str) :
   simp [absEnv, subshellOf, subEnv]
 
 theorem Stat.sub {K : SCtx} {k : Ctx} {sub : Bool} (h : Stat K k sub)
-    (hne : K.e = true → K.ign = false ∧ K.unk = false) :
-    Stat (subK K.e) { k with depth := 0 } true :=
+    (hne : K.e = true → K.ign = false ∧ K.unk = false) (d : Nat) :
+    Stat (subK K.e) { k with depth := d } true :=
   ⟨h.kt, fun h' => by simp [subK] at h', fun he _ _ => h.knign he (hne he).1 (hne he).2,
     fun h' => by simp [subK] at h', Nat.zero_le _, fun h' => by simp [subK] at h'⟩
 
 theorem Dyn.sub {K : SCtx} {k : Ctx} {sub : Bool} {s : St} (hst : Stat K k sub) (h : Dyn K k sub s)
-    (hne : K.e = true → K.ign = false ∧ K.unk = false) (out : Str) :
-    Dyn (subK K.e) { k with depth := 0 } true (subshellOf s out) :=
+    (hne : K.e = true → K.ign = false ∧ K.unk = false) (out : Str) (d : Nat) :
+    Dyn (subK K.e) { k with depth := d } true (subshellOf s out) :=
   ⟨rfl, ⟨fun _ => rfl, rfl⟩, h.fok, rfl,
     fun he => (hst.knign he (hne he).1 (hne he).2).symm, h.noe,
     fun h' => by simp [subK] at h', fun h' => by simp [subK] at h'⟩
@@ -40,14 +40,14 @@ def SubRel : Option St → Res → Prop
   | _, _ => False
 
 theorem sim_subrun {n : Nat} (hS : SimS n) {K : SCtx} {k : Ctx} {sub : Bool} {s : St} (p : Prog)
-    (out0 : Str) (hst : Stat K k sub) (hne : K.e = true → K.ign = false ∧ K.unk = false)
+    (out0 : Str) (d : Nat) (hst : Stat K k sub) (hne : K.e = true → K.ign = false ∧ K.unk = false)
     (hp0 : p.isNil = false) (hsup : supProg (subK K.e) false p = true) (hd : Dyn K k sub s)
     (hl : LastOk s) (hx : s.exit = {}) :
     SubRel (foldStmts (fun st => run n (.stmt st)) p (subshellOf s out0))
-      (subRun (fun st => sem n { k with depth := 0 } (.stmt st))
-        (fun a e => sem n { k with depth := 0, exitTrap := true } (.trap a) e) p (subEnv (absEnv s) out0)) := by
-  have h0 := sim_list n hS p (subK K.e) false { k with depth := 0 } true (subshellOf s out0) hp0
-    (hst.sub hne) hsup (hd.sub hst hne out0) hl (by simp [NoFlags, subshellOf, hx])
+      (subRun (fun st => sem n { k with depth := d } (.stmt st))
+        (fun a e => sem n { k with depth := d, exitTrap := true } (.trap a) e) p (subEnv (absEnv s) out0)) := by
+  have h0 := sim_list n hS p (subK K.e) false { k with depth := d } true (subshellOf s out0) hp0
+    (hst.sub hne d) hsup (hd.sub hst hne out0 d) hl (by simp [NoFlags, subshellOf, hx])
     (by simp [NoPending, subshellOf])
   rw [absEnv_subshellOf] at h0
   unfold subRun
@@ -110,7 +110,7 @@ theorem sim_subsh {n : Nat} (hS : SimS n) {K : SCtx} {k : Ctx} {sub : Bool} {s :
   simp only [supCmd, Bool.and_eq_true, Bool.not_eq_eq_eq_not, Bool.not_true] at hs
   obtain ⟨⟨hp0, hne⟩, hsup⟩ := hs
   have hne' := subNe_of (K := K) hne
-  have h0 := sim_subrun hS p s.out hst hne' hp0 hsup hd hl hx
+  have h0 := sim_subrun hS p s.out 0 hst hne' hp0 hsup hd hl hx
   have hrun : run (n+1) (.cmd (.subsh p)) s =
       match foldStmts (fun st => run n (.stmt st)) p (subshellOf s s.out) with
       | none => none
@@ -143,7 +143,7 @@ theorem sim_assignSub {n : Nat} (hS : SimS n) {K : SCtx} {k : Ctx} {sub : Bool} 
   simp only [supCmd, Bool.and_eq_true, Bool.not_eq_eq_eq_not, Bool.not_true] at hs
   obtain ⟨⟨hp0, hne⟩, hsup⟩ := hs
   have hne' := subNe_of (K := K) hne
-  have h0 := sim_subrun hS p [] hst hne' hp0 hsup hd hl hx
+  have h0 := sim_subrun hS p [] k.depth hst hne' hp0 hsup hd hl hx
   have hrun : run (n+1) (.cmd (.assignSub x p)) s =
       match foldStmts (fun st => run n (.stmt st)) p (subshellOf s []) with
       | none => none
@@ -153,8 +153,8 @@ theorem sim_assignSub {n : Nat} (hS : SimS n) {K : SCtx} {k : Ctx} {sub : Bool} 
                       vars := (x, stripNl r2.out) :: s.vars } := by
     rw [run]; simp only [stop_false_of_exit hx, Bool.false_eq_true, ↓reduceIte]; rfl
   have hsem : sem (n+1) k (.cmd (.assignSub x p)) (absEnv s) =
-      match subRun (fun st => sem n { k with depth := 0 } (.stmt st))
-          (fun a e => sem n { k with depth := 0, exitTrap := true } (.trap a) e) p (subEnv (absEnv s) []) with
+      match subRun (fun st => sem n { k with depth := k.depth } (.stmt st))
+          (fun a e => sem n { k with depth := k.depth, exitTrap := true } (.trap a) e) p (subEnv (absEnv s) []) with
       | none => none
       | some (_, e1) =>
         some (.norm, { absEnv s with status := e1.status, vars := (x, stripNl e1.out) :: (absEnv s).vars }) := by
